@@ -237,4 +237,38 @@ def run(ctx):
                 t = f.bbs[b]["t"]
                 if t["k"] == "call" and any(cfg.match_name(n, p) for n in cfg.callee_names(t) for p in BLOCKING):
                     run.note("C20.R3 (informational): %s calls %s while holding the wallet lock (%s)" % (pp.short(fid), pp.short(t["f"]), c.site_of(f, b)))
+    R4 = "C20.R4"
+    run.rule(R4, "a counter is compared and written in one wallet-lock section: the child index a lock-managing function saves is decided on a value of current_child_index read in the same section", floor=1)
+    n4 = 0
+    for f in managers:
+        ws = la.wallet_epochs(f)
+        saves = cfg.find_calls(f, c.WOB + "save_child_index")
+        if not saves or not ws:
+            continue
+        fl4 = vf.get_flow(f)
+        for b, t in saves:
+            e_w = epoch_of(f, ws, b)
+            # the comparisons that decide whether this write happens
+            reads = set()
+            for x in cfg.comparisons(f):
+                edges = None
+                if x.true_edges and cfg.must_pass(f, x.true_edges, {b})[0]:
+                    edges = x.true_edges
+                elif x.false_edges and cfg.must_pass(f, x.false_edges, {b})[0]:
+                    edges = x.false_edges
+                if edges is None:
+                    continue
+                for y in fl4.of_operand(x.l) | fl4.of_operand(x.r) | vf.producers(f, x.l) | vf.producers(f, x.r):
+                    if y[0] in ("call", "mutcall") and y[1] == c.WB + "current_child_index" and len(y) > 2:
+                        reads.add(y[2])
+            if not reads:
+                continue
+            n4 += 1
+            stale = [rb for rb in reads if epoch_of(f, ws, rb) != e_w]
+            held = not stale
+            run.instance(R4, {"fn": pp.short(f.id), "obligation": "save_child_index and the current_child_index it is compared with sit in the same wallet-lock section", "write": c.site_of(f, b), "reads": [c.site_of(f, rb) for rb in sorted(reads)]}, held=held)
+            if not held:
+                run.finding(Finding(R4, f.id, "the child index is written on the strength of a current_child_index value read in an earlier wallet-lock section: keys handed out in between are handed out again", site=c.site_of(f, b)))
+    if n4 == 0:
+        run.error("C20.R4: no save_child_index decided on current_child_index found in a lock-managing function (anchor missing)")
     run.not_decided += ["serialisability of every interleaving as such (R1 is the necessary structural condition under the single wallet mutex; R2 is sufficient for deadlock freedom only for the enumerated mutexes)", "locks taken inside dependencies (grin_core's own use of the static secp instance)"]
